@@ -142,7 +142,9 @@ Inductive ev :=
 | NLookup (d m k v : Z) | NUnknown (d : Z) | NEnter (d c : Z) | NDup (d c : Z) | NClaimed (d c : Z)
 | NDecode (d c : Z) (ok : bool) (v : Z) | NDoneClosed (d c : Z) | NRetryClosed (d c : Z) | NFinish (d r : Z)
 (* environment *)
-| XAcks (l l2 : list Z) | XCancel (c : Z) | XTimerFire (c : Z) | XForceCancel | XCloseMark.
+| XAcks (l l2 : list Z) | XCancel (c : Z) | XTimerFire (c : Z) | XForceCancel | XCloseMark
+(* Close / ForceClose returns: wg.Wait found the wait group empty *)
+| XCloseReturned.
 
 Record state := mkState {
   calls : Z -> call;
@@ -152,13 +154,15 @@ Record state := mkState {
   fclosed : bool;              (* reqCtx cancelled *)
   eclosed : bool;              (* Engine.closed *)
   maxr : Z;                    (* Engine.maxRetries *)
-  used : Z -> bool             (* ghost: msg ids of the calls that have entered Do *)
+  used : Z -> bool;            (* ghost: msg ids of the calls that have entered Do *)
+  wgl : list Z;                (* Engine.wg: the calls between wg.Add (in Do's entry region) and wg.Done *)
+  closeret : bool              (* ghost: a Close / ForceClose call has returned (wg.Wait came back) *)
 }.
 
 Definition upd {A} (f : Z -> A) (k : Z) (v : A) : Z -> A := fun x => if Z.eqb x k then v else f x.
 
 Definition init (mx : Z) : state :=
-  mkState (fun _ => call0) (fun _ => del0) (fun _ => None) (fun _ => None) false false mx (fun _ => false).
+  mkState (fun _ => call0) (fun _ => del0) (fun _ => None) (fun _ => None) false false mx (fun _ => false) [] false.
 
 Definition ret_code (r : retv) : Z * Z :=
   match r with
@@ -343,16 +347,20 @@ Definition ev_caller (e : ev) : option Z :=
 
 Definition apply_geff (s : state) (c : Z) (k : call) (g : geff) : state :=
   match g with
-  | GNone => mkState (upd (calls s) c k) (dels s) (rpcm s) (ackm s) (fclosed s) (eclosed s) (maxr s) (used s)
-  | GRpc m h => mkState (upd (calls s) c k) (dels s) (upd (rpcm s) m h) (ackm s) (fclosed s) (eclosed s) (maxr s) (used s)
-  | GAck m o => mkState (upd (calls s) c k) (dels s) (rpcm s) (upd (ackm s) m o) (fclosed s) (eclosed s) (maxr s) (used s)
+  | GNone => mkState (upd (calls s) c k) (dels s) (rpcm s) (ackm s) (fclosed s) (eclosed s) (maxr s) (used s) (wgl s) (closeret s)
+  | GRpc m h => mkState (upd (calls s) c k) (dels s) (upd (rpcm s) m h) (ackm s) (fclosed s) (eclosed s) (maxr s) (used s) (wgl s) (closeret s)
+  | GAck m o => mkState (upd (calls s) c k) (dels s) (rpcm s) (upd (ackm s) m o) (fclosed s) (eclosed s) (maxr s) (used s) (wgl s) (closeret s)
   end.
 
 Definition set_call (s : state) (c : Z) (k : call) : state := apply_geff s c k GNone.
 Definition mark_used (s : state) (m : Z) : state :=
-  mkState (calls s) (dels s) (rpcm s) (ackm s) (fclosed s) (eclosed s) (maxr s) (upd (used s) m true).
+  mkState (calls s) (dels s) (rpcm s) (ackm s) (fclosed s) (eclosed s) (maxr s) (upd (used s) m true) (wgl s) (closeret s).
+Fixpoint zremove (c : Z) (l : list Z) : list Z :=
+  match l with [] => [] | x :: t => if Z.eqb x c then zremove c t else x :: zremove c t end.
+Definition set_wgl (s : state) (l : list Z) : state :=
+  mkState (calls s) (dels s) (rpcm s) (ackm s) (fclosed s) (eclosed s) (maxr s) (used s) l (closeret s).
 Definition set_del (s : state) (d : Z) (x : del) : state :=
-  mkState (calls s) (upd (dels s) d x) (rpcm s) (ackm s) (fclosed s) (eclosed s) (maxr s) (used s).
+  mkState (calls s) (upd (dels s) d x) (rpcm s) (ackm s) (fclosed s) (eclosed s) (maxr s) (used s) (wgl s) (closeret s).
 Definition set_dpc (x : del) (p : dpc) : del := mkDel p (dpay x) (dmid x).
 
 Definition payload_of (k v : Z) : option payload :=
@@ -391,7 +399,12 @@ Definition step (s : state) (e : ev) : option state :=
               (* environment assumption, explicit: the msg ids of all calls are pairwise distinct
                  (C08: outgoing ids are unique on a connection); a second Do with an id that was
                  already used is not part of the modelled histories *)
-              if used s m then None else Some (mark_used (apply_geff s c k' g) m)
+              (* the entry region of Do: closed check and wg.Add under Engine.mux *)
+              if used s m then None
+              else let s1 := mark_used (apply_geff s c k' g) m in Some (set_wgl s1 (c :: wgl s1))
+          | CReturn _ _ _ _ _ =>
+              (* the last deferred call of Do is wg.Done (a no-op for a rejected call, which never did wg.Add) *)
+              let s1 := apply_geff s c k' g in Some (set_wgl s1 (zremove c (wgl s1)))
           | _ => Some (apply_geff s c k' g)
           end
       | None => None
@@ -477,15 +490,20 @@ Definition step (s : state) (e : ev) : option state :=
       end
   | XAcks l l2 =>
       let '(cs, am, cl) := do_acks (calls s) (ackm s) l in
-      if zlist_eqb cl l2 then Some (mkState cs (dels s) (rpcm s) am (fclosed s) (eclosed s) (maxr s) (used s)) else None
+      if zlist_eqb cl l2 then Some (mkState cs (dels s) (rpcm s) am (fclosed s) (eclosed s) (maxr s) (used s) (wgl s) (closeret s)) else None
   | XCancel c =>
       let k := calls s c in
       Some (set_call s c (set_deliv (set_rcancel (set_ucancel k true) true) true))
   | XTimerFire c =>
       let k := calls s c in
       if armed k then Some (set_call s c (set_tval (set_armed k false) true)) else None
-  | XForceCancel => Some (mkState (calls s) (dels s) (rpcm s) (ackm s) true (eclosed s) (maxr s) (used s))
-  | XCloseMark => Some (mkState (calls s) (dels s) (rpcm s) (ackm s) (fclosed s) true (maxr s) (used s))
+  | XForceCancel => Some (mkState (calls s) (dels s) (rpcm s) (ackm s) true (eclosed s) (maxr s) (used s) (wgl s) (closeret s))
+  | XCloseMark => Some (mkState (calls s) (dels s) (rpcm s) (ackm s) (fclosed s) true (maxr s) (used s) (wgl s) (closeret s))
+  | XCloseReturned =>
+      (* Close: closed = true was set (XCloseMark), then wg.Wait returns only on an empty wait group *)
+      if eclosed s && (match wgl s with [] => true | _ => false end)
+      then Some (mkState (calls s) (dels s) (rpcm s) (ackm s) (fclosed s) (eclosed s) (maxr s) (used s) (wgl s) true)
+      else None
   | _ => None
   end
   end.
